@@ -5,6 +5,7 @@
 -/
 import AdaptixProofs.Lemmas.LayoutCrown
 import AdaptixProofs.Lemmas.LayoutOverlay
+import AdaptixProofs.Lemmas.LayoutDump
 
 namespace Adaptix.Layout
 
@@ -202,5 +203,33 @@ theorem outputLayout_inv (sch : Schema) (style : Style → String → String) (f
         intro x
         simp only [toOut_leaves]
         exact buildCrown_leaves lv c hc x
+
+mutual
+/-- the provider fills every gap with `None` (`_fill_output_gap`) -/
+theorem toOut_gapsNone (sv : List (Path × Val)) : ∀ (c : Crown) (cur : Path), (c.toOut sv cur).gapsNone = true
+  | .dict m, cur => by simpa [Crown.toOut, OutCrown.gapsNone] using toOut_gapsNoneD sv m cur
+  | .list m, cur => by simpa [Crown.toOut, OutCrown.gapsNone] using toOut_gapsNoneL sv m cur 0
+  | .leaf (.field id), cur => by simp [Crown.toOut, OutCrown.gapsNone]
+  | .leaf .none, cur => by simp [Crown.toOut, OutCrown.gapsNone]
+theorem toOut_gapsNoneD (sv : List (Path × Val)) : ∀ (m : List (String × Crown)) (cur : Path),
+    OutCrown.gapsNoneD (Crown.toOut.goD sv cur m) = true
+  | [], _ => rfl
+  | (k, c) :: r, cur => by
+    simp [Crown.toOut.goD, OutCrown.gapsNoneD, toOut_gapsNone sv c, toOut_gapsNoneD sv r cur]
+theorem toOut_gapsNoneL (sv : List (Path × Val)) : ∀ (m : List Crown) (cur : Path) (i : Nat),
+    OutCrown.gapsNoneL (Crown.toOut.goL sv cur i m) = true
+  | [], _, _ => rfl
+  | c :: r, cur, i => by
+    simp [Crown.toOut.goL, OutCrown.gapsNoneL, toOut_gapsNone sv c, toOut_gapsNoneL sv r cur (i + 1)]
+end
+
+theorem outputLayout_gapsNone (sch : Schema) (style : Style → String → String) (fields : List Field) (l : OutLayout)
+    (h : outputLayout sch style fields = .ok l) : l.crown.gapsNone = true := by
+  unfold outputLayout at h
+  simp only [bind, Except.bind, pure, Except.pure] at h
+  repeat' split at h
+  all_goals first
+    | (simp at h; done)
+    | (simp only [Except.ok.injEq] at h; subst h; exact toOut_gapsNone _ _ _)
 
 end Adaptix.Layout
